@@ -15,7 +15,8 @@ def _hook(event, args):
     buf = getattr(_state, "events", None)
     if buf is None:
         return
-    if event in ALLOW:
+    if event in ALLOW or (event == "object.__getattr__" and len(args) > 1 and isinstance(args[1], str) and args[1].startswith(("f_", "co_", "tb_"))):
+        # (reading f_code / f_back / co_filename of a frame is what logging.findCaller does when somebody listens to the log)
         c = _state.allowed
         c[event] = c.get(event, 0) + 1
         return
